@@ -150,14 +150,19 @@ def _build(spec, lane, boxes, dispersive=True):
 # ----------------------------------------------------------------------------------------------
 def _pole_strategy(draw, per_axis_ok, zero_strength):
     kind = draw(st.sampled_from(["lorentz", "lorentz", "drude"]))
-    per_axis = per_axis_ok and draw(st.integers(0, 2)) == 0
+    per_axis = per_axis_ok and draw(st.booleans())
+    # a pole may be per-axis in all of its parameters or in a single one (here: the damping only)
+    g_only = per_axis and draw(st.booleans())
 
-    def val(choices):
-        if per_axis:
+    def val(choices, axes=None):
+        if per_axis if axes is None else axes:
             return [draw(st.sampled_from(choices)) for _ in range(3)]
         return draw(st.sampled_from(choices))
 
-    g = val([0.0, 0.0, 0.05, 0.3, 1.0, 2.0])
+    g = val([0.0, 0.0, 0.05, 0.3, 1.0, 2.0], axes=per_axis)
+    if g_only:
+        g = [0.05, 1.0, 0.3] if len(set(g)) == 1 else g
+        per_axis = False  # every other parameter stays scalar
     if kind == "lorentz":
         w = val([0.05, 0.2, 0.5, 0.9, 1.3, 1.9])
         de = val([0.0, 0.5, 1.0, 2.5, 6.0])
